@@ -1,3 +1,3 @@
-CONSTANTS R = 40961  NDig = 4  KLo = 4  MHi = 8  EmitTable = TRUE
+CONSTANTS R = 46337  NDig = 4  KLo = 4  MHi = 8  EmitTable = TRUE  WR = 4  NRad = 3
 INIT Init
 NEXT Next
